@@ -469,8 +469,9 @@ class GPR(Module):
         """
         if knockouts is None:
             knockouts = set()
-        if knockouts is str:
-            knockouts = list(knockouts)
+        if isinstance(knockouts, str):
+            # a single gene identifier, not a collection of characters
+            knockouts = {knockouts}
         if self.body:
             return self._eval_gpr(self.body, knockouts=knockouts)
         else:
